@@ -3,7 +3,14 @@
 package main
 
 import (
-		"fmt"
+	"crypto"
+	"crypto/rand"
+	"crypto/rsa"
+	"crypto/sha1"
+	"crypto/x509"
+	"encoding/base64"
+	"encoding/binary"
+	"fmt"
 	"io"
 	"net"
 	"strconv"
@@ -19,6 +26,7 @@ import (
 	"go.minekube.com/gate/pkg/edition/java/proto/packet"
 	"go.minekube.com/gate/pkg/edition/java/proto/state"
 	"go.minekube.com/gate/pkg/edition/java/proxy"
+	pcrypto "go.minekube.com/gate/pkg/edition/java/proxy/crypto"
 	"go.minekube.com/gate/pkg/gate/proto"
 	"go.minekube.com/gate/pkg/util/uuid"
 
@@ -63,7 +71,75 @@ func mcString(s string) []byte { return append(varint(len(s)), s...) }
 
 // clientHello builds the Handshake and ServerLogin frames by hand (independent of gate's encoders), so that
 // any byte string — empty, over-long, invalid UTF-8 — can be sent as the username.
-func clientHello(protocol int, username string) []byte {
+// keyring: a harness-owned trust anchor (installed through the verif hook in place of Mojang's key) and a
+// player key pair; lets the harness attach a profile key with a VALID signature to a login start packet.
+type keyring struct {
+	anchor    *rsa.PrivateKey
+	playerDER []byte
+	holder    [16]byte
+}
+
+var keys *keyring
+
+func newKeyring() *keyring {
+	anchor, err := rsa.GenerateKey(rand.Reader, 2048)
+	if err != nil {
+		panic(err)
+	}
+	player, err := rsa.GenerateKey(rand.Reader, 1024)
+	if err != nil {
+		panic(err)
+	}
+	der, err := x509.MarshalPKIXPublicKey(&player.PublicKey)
+	if err != nil {
+		panic(err)
+	}
+	k := &keyring{anchor: anchor, playerDER: der}
+	copy(k.holder[:], []byte{0xc1, 0x0c, 1, 2, 3, 4, 0x40, 5, 0x80, 6, 7, 8, 9, 10, 11, 12})
+	return k
+}
+
+// signedKey encodes `expiry, key, signature` as the login start packet of 1.19 (GenericV1: signature over
+// decimal expiry + PEM) and 1.19.1/2 (LinkedV2: signature over holder uuid + expiry + DER) carries it.
+func (k *keyring) signedKey(protocol int, kind string) []byte {
+	exp := time.Now().Add(time.Hour)
+	if kind == "expired" {
+		exp = time.Now().Add(-time.Hour)
+	}
+	ms := exp.UnixMilli()
+	var msg []byte
+	if protocol == 759 {
+		b64 := base64.StdEncoding.EncodeToString(k.playerDER)
+		var sb strings.Builder
+		for i := 0; i < len(b64); i += 76 {
+			end := min(i+76, len(b64))
+			sb.WriteString(b64[i:end])
+			if end-i == 76 {
+				sb.WriteString("\n")
+			}
+		}
+		msg = []byte(fmt.Sprintf("%d-----BEGIN RSA PUBLIC KEY-----\n%s\n-----END RSA PUBLIC KEY-----\n", ms, sb.String()))
+	} else {
+		msg = append(msg, k.holder[:]...)
+		msg = binary.BigEndian.AppendUint64(msg, uint64(ms))
+		msg = append(msg, k.playerDER...)
+	}
+	h := sha1.Sum(msg)
+	sig, err := rsa.SignPKCS1v15(rand.Reader, k.anchor, crypto.SHA1, h[:])
+	if err != nil {
+		panic(err)
+	}
+	if kind == "badsig" {
+		sig[len(sig)/2] ^= 0x5a
+	}
+	out := binary.BigEndian.AppendUint64(nil, uint64(ms))
+	out = append(out, varint(len(k.playerDER))...)
+	out = append(out, k.playerDER...)
+	out = append(out, varint(len(sig))...)
+	return append(out, sig...)
+}
+
+func clientHello(protocol int, username, key string) []byte {
 	hs := append([]byte{0x00}, varint(protocol)...)
 	hs = append(hs, mcString("localhost")...)
 	hs = append(hs, 0x63, 0xdd) // port 25565
@@ -74,8 +150,16 @@ func clientHello(protocol int, username string) []byte {
 		lg = append(lg, make([]byte, 16)...)
 	case protocol >= 761: // 1.19.3 .. 1.20.1: optional holder uuid, no key
 		lg = append(lg, 0)
+	case protocol == 760 && key != "nokey": // 1.19.1/2: signed key + holder uuid
+		lg = append(lg, 1)
+		lg = append(lg, keys.signedKey(protocol, key)...)
+		lg = append(lg, 1)
+		lg = append(lg, keys.holder[:]...)
 	case protocol == 760: // 1.19.1: optional key, optional uuid
 		lg = append(lg, 0, 0)
+	case protocol == 759 && key != "nokey": // 1.19: signed key
+		lg = append(lg, 1)
+		lg = append(lg, keys.signedKey(protocol, key)...)
 	case protocol == 759: // 1.19: optional key
 		lg = append(lg, 0)
 	}
@@ -138,7 +222,7 @@ func (b *backend) serve(c net.Conn) {
 
 // login performs one offline-mode login and reports what the client observes first (and, when be != nil,
 // which username the backend was sent).
-func login(protocol int, fwdNone bool, ov *override, be *backend, username string) string {
+func login(protocol int, fwdNone bool, ov *override, be *backend, key, username string) string {
 	cfg := jconfig.DefaultConfig
 	cfg.OnlineMode = false
 	cfg.Compression.Threshold = -1
@@ -188,7 +272,7 @@ func login(protocol int, fwdNone bool, ov *override, be *backend, username strin
 
 	werr := make(chan error, 1)
 	go func() {
-		_, err := cli.Write(clientHello(protocol, username))
+		_, err := cli.Write(clientHello(protocol, username, key))
 		werr <- err
 	}()
 	dec := codec.NewDecoder(cli, proto.ClientBound, logr.Discard())
@@ -224,6 +308,9 @@ func login(protocol int, fwdNone bool, ov *override, be *backend, username strin
 		}
 		if strings.Contains(sb.String(), "invalid format") {
 			return "invalid-name"
+		}
+		if strings.Contains(sb.String(), "invalid_public_key") {
+			return "bad-key"
 		}
 		return "disconnect-other"
 	default:
@@ -306,6 +393,8 @@ func main() {
 	}
 	be := newBackend()
 	defer be.ln.Close()
+	keys = newKeyring()
+	defer pcrypto.C10SetYggdrasilSessionPubKey(pcrypto.C10SetYggdrasilSessionPubKey(&keys.anchor.PublicKey))
 
 	doUUID := func(cl, name string) {
 		out := hx.Guard(5*time.Second, func() string {
@@ -327,7 +416,7 @@ func main() {
 	doRunes := func(cl, s string) {
 		run.Case("runes/"+cl, "runes "+hx.HexS(s), hx.Guard(5*time.Second, func() string { return runesOf(s) }))
 	}
-	doLogin := func(cl string, protocol int, none bool, ov *override, withBE bool, name string) {
+	doLoginKey := func(cl string, protocol int, none bool, ov *override, withBE bool, key, name string) {
 		mode, ovs, bes := "legacy", "-", "0"
 		if none {
 			mode = "none"
@@ -339,8 +428,14 @@ func main() {
 		if withBE && protocol < 764 {
 			b, bes = be, "1"
 		}
-		out := hx.Guard(30*time.Second, func() string { return login(protocol, none, ov, b, name) })
-		run.Case("login/"+cl, fmt.Sprintf("login %d %s %s %s %s", protocol, mode, ovs, bes, hx.HexS(name)), out)
+		if protocol != 759 && protocol != 760 {
+			key = "nokey" // only 1.19–1.19.2 login start packets carry a key
+		}
+		out := hx.Guard(30*time.Second, func() string { return login(protocol, none, ov, b, key, name) })
+		run.Case("login/"+cl, fmt.Sprintf("login %d %s %s %s %s %s", protocol, mode, ovs, bes, key, hx.HexS(name)), out)
+	}
+	doLogin := func(cl string, protocol int, none bool, ov *override, withBE bool, name string) {
+		doLoginKey(cl, protocol, none, ov, withBE, "nokey", name)
 	}
 
 	// ---- fixed cases first ----
@@ -365,6 +460,15 @@ func main() {
 			doLogin("fixed-backend", pr, none, nil, true, "ab\n")
 		}
 	}
+	// signed profile key in the login start packet (1.19 / 1.19.1): every key state with valid and invalid names
+	for _, pr := range []int{759, 760} {
+		for _, k := range []string{"valid", "expired", "badsig", "nokey"} {
+			for _, n := range []string{"Notch", "ab", "a", "seventeen_chars_x", "with space", "dash-ed", "N\xc3\xb6tch", "ab\n", "Notch\x00", "\xc5\xbfteve"} {
+				doLoginKey("fixed-key/"+k, pr, pr == 759, nil, false, k, n)
+			}
+		}
+	}
+	doLoginKey("fixed-key/valid", 760, true, nil, true, "valid", "Notch")
 	doLogin("fixed", 767, true, ov1, false, "Notch")
 	doLogin("fixed", 767, false, ov1, false, "x")
 
@@ -413,5 +517,12 @@ func main() {
 			ov = &override{id: uuid.UUID(r.Bytes(16)), name: validName(r, 2+r.Intn(15))}
 		}
 		doLogin(cl, hx.Pick(r, protos), r.Bool(), ov, r.Chance(1, 6), name)
+	}
+	// generated names on the key-carrying protocols, key mostly valid
+	kk := run.Scale(400, 4000)
+	for i := 0; i < kk; i++ {
+		name, cl := genName(r)
+		key := hx.Pick(r, []string{"valid", "valid", "valid", "expired", "badsig", "nokey"})
+		doLoginKey("key-"+key+"/"+cl, hx.Pick(r, []int{759, 760}), r.Bool(), nil, false, key, name)
 	}
 }
